@@ -264,7 +264,7 @@ pub fn expected(c: &CliCase, model: &Model) -> Result<Expected, String> {
         }
         Sub::Cov { k, bs, bc, counts, threads, alt, .. } => {
             let delim = unhex(f.get(1).unwrap_or(&"20"));
-            let cc = CovCase { recs: c.recs.clone(), alt: alt.clone(), k: *k as usize, bin_size: *bs as usize, bin_count: *bc as usize, norm: !*counts, delim, threads: *threads as usize, mem: 6.0 };
+            let cc = CovCase { recs: c.recs.clone(), alt: alt.clone(), k: *k as usize, bin_size: *bs as usize, bin_count: *bc as usize, norm: !*counts, delim, threads: *threads as usize, mem: 6.0, prev: None };
             files.insert("kmers.vectors".into(), (expected_rows(&cc, model)?, true));
             let counting = alt.as_ref().unwrap_or(&c.recs);
             files.insert("kmers.counts".into(), (counts_file(model, *k, counting, false)?, false));
